@@ -363,12 +363,11 @@ theorem countLoop_tail (map : Option MapSection) (acc : List RawSample) :
     have h2 : hasPrefix (asc "---") sentinelMemoryMap = true := by decide
     simp [tailLines, countLoop, h1, h2]
 
-theorem splitLines_printCount (d : CountDoc) (h : d.wf = true) : splitLines (printCount d) = d.lines := by
+theorem CountDoc.lines_ok (d : CountDoc) (h : d.wf = true) : ∀ l ∈ d.lines, LineOK l := by
   simp only [CountDoc.wf, Bool.and_eq_true, List.all_eq_true] at h
   obtain ⟨⟨⟨⟨hpre, hname⟩, hrecs⟩, hpost⟩, hmap⟩ := h
   have hmap' : ∀ m, d.map = some m → m.wf = true := by
     intro m hm; rw [hm] at hmap; exact hmap
-  apply splitLines_unlines
   intro l hl
   simp only [CountDoc.lines, CountDoc.recLines, List.mem_append, List.mem_singleton, List.mem_flatMap] at hl
   rcases hl with (((hl | hl) | ⟨r, hr, hl⟩) | hl) | hl
@@ -394,6 +393,9 @@ theorem splitLines_printCount (d : CountDoc) (h : d.wf = true) : splitLines (pri
       exact hlit
   · exact LineOK_fillers (List.all_eq_true.2 hpost) l hl
   · exact LineOK_tailLines LineOK_sentinelMemoryMap hmap' l hl
+
+theorem splitLines_printCount (d : CountDoc) (h : d.wf = true) : splitLines (printCount d) = d.lines :=
+  splitLines_unlines _ (d.lines_ok h)
 
 theorem parseGoCount_printCount (d : CountDoc) (h : d.wf = true) : parseGoCount (printCount d) = .ok (expectedCount d) := by
   have hlines := splitLines_printCount d h
